@@ -111,6 +111,7 @@ class Ctx:
         self.symbolic_ties = {}
         self.known_seen = []
         self.searching = False
+        self.pre_failed = []         # obligations / stages that could not even be generated
 
     # ------------------------------------------------------------------ model access
     def model(self, op, args):
@@ -264,9 +265,45 @@ class Ctx:
         self.failures.append(f)
         return f
 
+    # ------------------------------------------------------------------ robustness against code changes
+    def stage(self, name, fn, *args, **kw):
+        """Run one stage of a check.  If the harness itself crashes (typically because the code under
+        test changed shape: a renamed table, a new argument, a stub that no longer fits), that tie is
+        *not re-established*: it is recorded as a broken obligation and the remaining stages still run.
+        Never let such a crash end the check without a verdict."""
+        try:
+            return fn(*args, **kw)
+        except InfraError:
+            raise
+        except Exception as e:  # noqa: BLE001
+            self.pre_failed.append(name)
+            self.fail("obligation", name, detail=f"stage `{name}` could not be carried out: {e!r}",
+                      extra={"traceback": traceback.format_exc()[-1500:]})
+            return None
+
     # ------------------------------------------------------------------ obligations (ties 1 and 1b)
     def obligation(self, name, lean_src, meta=None):
         self.obligations.append((name, lean_src, meta or {}))
+
+    def sym_tie(self, name, fn, variables, ret_type, model_term, tactic=None, unfolds=(), meta=None,
+                catch=(ValueError,)):
+        """Tie 1b in one call: trace `fn` symbolically, emit `def name`, register the obligation
+        `∀ vars, name vars = model_term`.  A trace that fails (stub no longer fits the code, the code
+        became untraceable) is a broken obligation, not a crash."""
+        from . import symtrace as st
+        try:
+            src, tree, n = st.extract(name, fn, variables, ret_type, catch=catch)
+        except InfraError:
+            raise
+        except Exception as e:  # noqa: BLE001
+            self.symbolic_ties[name] = {"error": repr(e)[:300]}
+            self.pre_failed.append(name)
+            self.fail("obligation", name, detail=f"symbolic trace of the current source failed: {e!r}",
+                      extra=dict(meta or {}))
+            return None
+        self.symbolic_ties[name] = {"paths": n}
+        self.obligation(name, st.tie_obligation(name, src, variables, model_term, unfolds, tactic=tactic), meta)
+        return tree
 
     def discharge(self, imports):
         """Elaborate every registered obligation in one throw-away file."""
@@ -477,7 +514,7 @@ def finish(ctx, replay_mode=False):
 def write_evidence(ctx, violations):
     mod = ctx.mod
     n_thm = len(mod.THEOREMS)
-    n_obl = len(ctx.obligations)
+    n_obl = len(ctx.obligations) + len(ctx.pre_failed)
     discharged = len(ctx.audited) + sum(1 for v in ctx.obl_results.values() if v)
     samples = list(ctx.samples[:12])
     for t, info in list(ctx.audited.items())[:3]:
@@ -535,7 +572,7 @@ def run_check(mod, tier, seed, replay=None):
         ctx.audit()
         if tier == "thorough":
             thorough_extras(ctx)
-        mod.run(ctx)
+        ctx.stage("run", mod.run, ctx)      # backstop: a crashing check is a broken tie, not "no verdict"
         return finish(ctx)
     except InfraError as e:
         print("INFRASTRUCTURE ERROR:", e, file=sys.stderr)
